@@ -43,9 +43,9 @@ def readNatAux : List Char → Nat → Option Nat
 def readNat (cs : List Char) : Option Nat := if cs.isEmpty then none else readNatAux cs 0
 
 /-- `-<lit>` or `<lit>` -/
-def readInt : List Char → Option Int
-  | '-' :: cs => (readNat cs).map fun n => -(Int.ofNat n)
-  | cs => (readNat cs).map Int.ofNat
+def readInt (cs : List Char) : Option Int :=
+  if cs.head? = some '-' then (readNat cs.tail).map fun n => -(Int.ofNat n)
+  else (readNat cs).map Int.ofNat
 
 /-! ## C integer literal text (cexpr `literal::c_int`) -/
 
@@ -189,15 +189,25 @@ def Repr'.signed : Repr' → Bool
   | .c t => t.signed
   | .rust k => k.isSigned
 
+/-- the literal of a variant -/
+inductive ELit
+  | num (text : List Char)     -- `int_expr` / `uint_expr`
+  | bool (b : Bool)            -- `quote!(#v)` for a `bool`
+  deriving DecidableEq, Repr
+
 /-- literal printed for a variant (`EnumBuilder::with_variant`) -/
-def variantLiteral (isRust : Bool) : EVal → List Char
-  | .boolean b => if isRust then printNat (if b then 1 else 0) else (if b then "true".toList else "false".toList)
-  | .signed v => printInt v
-  | .unsigned v => printNat v.toNat
+def variantLiteral (isRust : Bool) : EVal → ELit
+  | .boolean b => if isRust then .num (printNat (if b then 1 else 0)) else .bool b
+  | .signed v => .num (printInt v)
+  | .unsigned v => .num (printNat v.toNat)
+
+def ELit.text : ELit → String
+  | .num t => String.ofList t
+  | .bool b => if b then "true" else "false"
 
 inductive EItem
   /-- a variant / constant carrying its own literal -/
-  | lit (name : String) (text : List Char)
+  | lit (name : String) (l : ELit)
   /-- a constant defined as another variant (duplicate value under the Rust-enum style) -/
   | aliasOf (name : String) (target : String)
   deriving DecidableEq, Repr
@@ -222,16 +232,22 @@ def emitVariants (isRust : Bool) (t : CTy) : List (String × Int) → List (EVal
 def emitEnum (style : EStyle) (t : CTy) (variants : List (String × Int)) : List EItem :=
   emitVariants style.isRust t variants []
 
-/-! reading the emitted items back: the value a Rust compiler assigns to each name -/
+/-! reading the emitted items back: the value a Rust compiler assigns to each name
+(an alias denotes the value of the EARLIER item it names) -/
 
-def readItem (items : List EItem) (fuel : Nat) (name : String) : Option Int :=
-  match fuel with
-  | 0 => none
-  | fuel + 1 =>
-    match items.find? fun i => match i with | .lit n _ => n = name | .aliasOf n _ => n = name with
-    | some (.lit _ text) =>
-      if text = "true".toList then some 1 else if text = "false".toList then some 0 else readInt text
-    | some (.aliasOf _ target) => readItem items fuel target
-    | none => none
+def readLit : ELit → Option Int
+  | .num t => readInt t
+  | .bool b => some (if b then 1 else 0)
+
+def nameLookup (l : List (String × Int)) (n : String) : Option Int :=
+  match l with
+  | [] => none
+  | (k, v) :: rest => if k = n then some v else nameLookup rest n
+
+def readItems (pre : List (String × Int)) : List EItem → Option (List (String × Int))
+  | [] => some pre
+  | .lit n l :: rest => (match readLit l with | some v => readItems (pre ++ [(n, v)]) rest | none => none)
+  | .aliasOf n target :: rest =>
+    (match nameLookup pre target with | some v => readItems (pre ++ [(n, v)]) rest | none => none)
 
 end BindgenModel.ConstEmit
